@@ -165,9 +165,33 @@ impl DocumentBuilder<'_> {
         // signature the type already commits to. `additional_implements`
         // enforces all three given the existing signatures.
         let existing_field_signatures = field_signatures_for(&self.interface_type_defs, &name);
-        let interfaces = self.additional_implements(&existing_field_signatures, Some(&name))?;
+        // Interfaces that already implement `name` inherit whatever this extension adds:
+        // it must agree with the fields each of them ends up with,
+        // their own and those of their other parents.
+        let mut descendant_commitments = Vec::new();
+        if extend {
+            let mut reconciled = HashMap::new();
+            for descendant in unique_names(&self.interface_type_defs) {
+                if descendant != name
+                    && self.implements_graph.closure(&descendant).contains(&name)
+                {
+                    descendant_commitments.push(reconciled_fields(
+                        &descendant,
+                        &self.implements_graph,
+                        &self.interface_type_defs,
+                        &mut reconciled,
+                    ));
+                }
+            }
+        }
+        let interfaces = self.pick_additional_implements(
+            &existing_field_signatures,
+            &descendant_commitments,
+            Some(&name),
+        )?;
         let exclude_fields: IndexSet<Name> = existing_field_signatures
             .keys()
+            .chain(descendant_commitments.iter().flat_map(|c| c.keys()))
             .map(|k| Name::new(k.clone()))
             .collect();
         let fields_def = self.fields_definition(&exclude_fields)?;
@@ -210,13 +234,36 @@ impl DocumentBuilder<'_> {
         existing_field_signatures: &IndexMap<String, FieldDef>,
         self_name: Option<&Name>,
     ) -> ArbitraryResult<IndexSet<Name>> {
+        self.pick_additional_implements(existing_field_signatures, &[], self_name)
+    }
+
+    /// Like [`Self::additional_implements`], for a type that other interfaces
+    /// implement already. `descendant_commitments` holds, for each of them, the
+    /// fields it ends up with: a pick must not clash with any of those either.
+    fn pick_additional_implements(
+        &mut self,
+        existing_field_signatures: &IndexMap<String, FieldDef>,
+        descendant_commitments: &[IndexMap<String, FieldDef>],
+        self_name: Option<&Name>,
+    ) -> ArbitraryResult<IndexSet<Name>> {
         if self.interface_type_defs.is_empty() {
             return Ok(IndexSet::new());
         }
         let num_itf = self
             .u
             .int_in_range(0..=(self.interface_type_defs.len() - 1))?;
-        let fields_by_type_name = fields_from_all_definitions(&self.interface_type_defs);
+        // Compare the signatures interfaces end up with, not the ones they declare:
+        // the backfill rewrites a field that an implemented interface declares too
+        // to that interface's signature.
+        let mut fields_by_type_name = HashMap::new();
+        for interface_name in unique_names(&self.interface_type_defs) {
+            reconciled_fields(
+                &interface_name,
+                &self.implements_graph,
+                &self.interface_type_defs,
+                &mut fields_by_type_name,
+            );
+        }
 
         let already_implemented_parents = match self_name {
             Some(n) => self.implements_graph.direct_parents(n),
@@ -225,8 +272,9 @@ impl DocumentBuilder<'_> {
         let mut accepted = already_implemented_parents.clone();
         // Seed the conflict guard with each existing parent's fields so a
         // new candidate whose closure carries a clashing signature is
-        // rejected before it joins `accepted`.
-        let mut accumulated_signatures = existing_field_signatures.clone();
+        // rejected before it joins `accepted`. For the same reason as above
+        // they come before the fields the type declares itself.
+        let mut accumulated_signatures = IndexMap::new();
         for parent in &already_implemented_parents {
             if let Some(fields) = fields_by_type_name.get(parent) {
                 for (fname, fdef) in fields {
@@ -235,6 +283,11 @@ impl DocumentBuilder<'_> {
                         .or_insert_with(|| fdef.clone());
                 }
             }
+        }
+        for (fname, fdef) in existing_field_signatures {
+            accumulated_signatures
+                .entry(fname.clone())
+                .or_insert_with(|| fdef.clone());
         }
 
         for _ in 0..num_itf {
@@ -245,6 +298,7 @@ impl DocumentBuilder<'_> {
                 &fields_by_type_name,
                 &mut accepted,
                 &mut accumulated_signatures,
+                descendant_commitments,
                 self_name,
             );
         }
@@ -352,6 +406,7 @@ fn try_accept_candidate(
     fields_by_type_name: &HashMap<Name, IndexMap<String, FieldDef>>,
     accepted: &mut IndexSet<Name>,
     accumulated_signatures: &mut IndexMap<String, FieldDef>,
+    descendant_commitments: &[IndexMap<String, FieldDef>],
     self_name: Option<&Name>,
 ) {
     let closure = graph.closure(candidate);
@@ -363,10 +418,13 @@ fn try_accept_candidate(
             .into_iter()
             .flatten()
             .any(|(fname, fdef)| {
-                accumulated_signatures.get(fname).is_some_and(|existing| {
-                    existing.ty != fdef.ty
-                        || existing.arguments_definition != fdef.arguments_definition
-                })
+                std::iter::once(&*accumulated_signatures)
+                    .chain(descendant_commitments)
+                    .filter_map(|signatures| signatures.get(fname))
+                    .any(|existing| {
+                        existing.ty != fdef.ty
+                            || existing.arguments_definition != fdef.arguments_definition
+                    })
             })
     });
     if would_cycle || would_conflict {
@@ -385,18 +443,35 @@ fn try_accept_candidate(
     }
 }
 
-/// Union of every def's fields by type name, merging base + extensions.
-/// First occurrence of each field name wins.
-pub(crate) fn fields_from_all_definitions<T: NamedDef>(
-    defs: &[T],
-) -> HashMap<Name, IndexMap<String, FieldDef>> {
-    unique_names(defs)
-        .into_iter()
-        .map(|n| {
-            let fields = field_signatures_for(defs, &n);
-            (n, fields)
-        })
-        .collect()
+/// The fields `name` ends up with once the backfill has reconciled it with the
+/// interfaces it implements: a field that one of them declares too takes that
+/// interface's signature, and their other fields are appended.
+pub(crate) fn reconciled_fields(
+    name: &Name,
+    graph: &crate::implements_graph::ImplementsGraph,
+    defs: &[InterfaceTypeDef],
+    reconciled: &mut HashMap<Name, IndexMap<String, FieldDef>>,
+) -> IndexMap<String, FieldDef> {
+    if let Some(fields) = reconciled.get(name) {
+        return fields.clone();
+    }
+    let mut fields = field_signatures_for(defs, name);
+    // Also ends the recursion, should `implements` edges ever loop
+    reconciled.insert(name.clone(), fields.clone());
+    let mut inherited: IndexMap<String, FieldDef> = IndexMap::new();
+    for parent in graph.direct_parents(name) {
+        for (fname, fdef) in reconciled_fields(&parent, graph, defs, reconciled) {
+            inherited.entry(fname).or_insert(fdef);
+        }
+    }
+    for (fname, fdef) in fields.iter_mut() {
+        if let Some(parent_fdef) = inherited.shift_remove(fname) {
+            *fdef = parent_fdef;
+        }
+    }
+    fields.extend(inherited);
+    reconciled.insert(name.clone(), fields.clone());
+    fields
 }
 
 /// Distinct names across base + extensions, in first-occurrence order.
